@@ -57,7 +57,7 @@ Theorem C05_shared_copy_constructs :
   forall e nh script ops w h id b k len,
     env_ok e -> exec e (init_world nh script) ops = Ok w -> h < nh ->
     handle w h = Some id -> hget w id = Some b -> btr b = Some k ->
-    2 <= bref b -> bncp b = false -> ecopyfail e = false -> cscript (wctx w) = [] ->
+    2 <= bref b -> bncp b = false -> ecopyfail e = false -> ehi e = true -> cscript (wctx w) = [] ->
     bused b <= len ->
     exists w' nid nb,
       step e w (OpDetach h len) = Ok (w', OOk)
@@ -84,7 +84,7 @@ Theorem C05_monitor_sound :
 Proof. exact mon_log_sound. Qed.
 
 (* ---- non-vacuity ---- *)
-Definition ex_env : env := mkenv 8 16 64 128 false.
+Definition ex_env : env := mkenv 8 16 64 128 false ShFull.
 
 Example C05_env_ok : env_ok ex_env.
 Proof. unfold env_ok, ex_env; simpl; lia. Qed.
